@@ -27,16 +27,6 @@ Theorem C04_start_on_finished_channel_fails : forall c, c_finished c = true -> c
 Proof. exact alloc_fails_when_finished. Qed.
 Print Assumptions C04_start_on_finished_channel_fails.
 
-(* code shape, regenerated from the source on every run (see theories/SkelClose.v) *)
-From Coq Require Import String.
-From GT Require Import SkelClose.
-From GTgen Require Import Params.
-Local Open Scope string_scope.
-Theorem C04_channel_close_shape : skel_tunnelChannel_close =
-  ["call tearDown"; "call mu.Lock"; "defer call mu.Unlock"; "defer call cancel"; "set finished"; "set err"; "set streams"].
-Proof. exact tunnelChannel_close_shape. Qed.
-Print Assumptions C04_channel_close_shape.
-
 (* Stop of a reverse-tunnel server ends every tunnel it still tracks, also after a GracefulStop
    (the guards of the state machine are regenerated from the source: theories/RevServer.v) *)
 From GT Require Import RevServer.
